@@ -66,7 +66,7 @@ class Sub(object):
         s.states = stats.nodes
         s.transitions = max(0, stats.nodes - 1)
         s.distinct = len(stats.obs)
-        s.nontrivial = len(stats.nontrivial_obs)
+        s.nontrivial = stats.nontrivial      # executions are distinct cases by construction (distinct choice vectors)
         s.outcomes = dict(stats.outcomes)
         s.violation_count = stats.violation_count
         for locus in sorted(stats.violations, key=lambda l: stats.violations[l].key()):
